@@ -39,7 +39,7 @@ const DS: [D; 5] = [D::None, D::Zero, D::Ns, D::Ms, D::Max];
 const RETRIES: [usize; 5] = [0, 1, 2, usize::MAX - 1, usize::MAX];
 const PATHS: [&str; 4] = ["new", "default", "clap", "serde"];
 pub const CELLS: u64 = 125 * 5 * 4;
-const ENTRIES: u64 = 16;
+const ENTRIES: u64 = 18;
 
 impl D {
     fn dur(self) -> Option<Duration> {
@@ -244,6 +244,37 @@ fn entry_world(sel: u64, ts: Option<TimeoutSettings>, silent: bool, t: &mut Tape
             }
             call(Entry::Eco { level: 1 })
         }
+        16 => {
+            // extra request settings, whatever the values: host names of awkward lengths (0, around 255
+            // bytes with a multi-byte character across the boundary, beyond the protocol's 32767), any
+            // protocol version; through the definition-driven and the protocol-level Java query
+            if !silent {
+                w.add_server(addr, Proto::Tcp, Box::new(McTcpServer::new(McHost::generate(t, vec![Variant::Java]))));
+            } else {
+                w.add_tcp_listener_mode(addr, crate::world::TcpListen::BlackHole);
+            }
+            let unit = *t.pick(CFG, &["a", "é", "中", "🎮"]);
+            let pad = *t.pick(CFG, &["", "x", "xx", "xxx"]);
+            let target = *t.pick(CFG, &[0usize, 1, 127, 128, 254, 255, 256, 257, 300, 16_383, 32_767, 32_768, 70_000]);
+            let mut hostname = String::from(pad);
+            while hostname.len() < target {
+                hostname.push_str(unit);
+            }
+            let protocol_version = *t.pick(CFG, &[i32::MIN, -1, 0, 47, i32::MAX]);
+            if t.draw(CFG, 2) == 0 {
+                let extra = gamedig::protocols::types::ExtraRequestSettings { hostname: Some(hostname), protocol_version: Some(protocol_version), gather_players: None, gather_rules: None, check_app_id: None };
+                call(Entry::Generic { game_id: "minecraftjava", extra: Some(extra), level: 2 })
+            } else {
+                call(Entry::McJava { settings: Some(gamedig::games::minecraft::RequestSettings { hostname, protocol_version }) })
+            }
+        }
+        17 => {
+            // extra request settings on a Valve game: every toggle combination
+            if !silent {
+                w.add_server(addr, Proto::Udp, Box::new(ValveServer::new(ValveState::generate(t, false, false, Some(440), 3, 3))));
+            }
+            call(Entry::Generic { game_id: "teamfortress2", extra: crate::scenarios::gen_extra(t), level: 2 })
+        }
         _ => {
             // the definition-driven dispatch
             if !silent {
@@ -346,7 +377,7 @@ impl Prop for C18 {
     }
 
     fn rule(&self) -> String {
-        format!("case index enumerates all {CELLS} cells = 5^3 (read, write, connect) values from {{None, 0, 1 ns, 1 ms, u64::MAX s}} x 5 retry counts {{0, 1, 2, usize::MAX-1, usize::MAX}} x 4 construction paths (TimeoutSettings::new, Default, a clap parser flattening TimeoutSettings, serde_json); cells a path cannot express (sub-second or None through whole-second flags, non-default through Default) are skipped and counted; every accepted configuration is used for a query on 16 entry points (every protocol family, Eco, the definition-driven dispatch) against a server that answers the first attempt and, for retries <= 2 and finite timeouts, against a silent one; the simulated OS rejects zero timeouts as the kernel does; oracle: construction rejects exactly the zero-duration cells with an invalid-input error, no construction and no query panics; distinct = (cell, event-log hash)")
+        format!("case index enumerates all {CELLS} cells = 5^3 (read, write, connect) values from {{None, 0, 1 ns, 1 ms, u64::MAX s}} x 5 retry counts {{0, 1, 2, usize::MAX-1, usize::MAX}} x 4 construction paths (TimeoutSettings::new, Default, a clap parser flattening TimeoutSettings, serde_json); cells a path cannot express (sub-second or None through whole-second flags, non-default through Default) are skipped and counted; every accepted configuration is used for a query on 18 entry points (every protocol family, Eco, the definition-driven dispatch, and two with extra request settings: Java host names of 0 to 70000 bytes with multi-byte characters across the 255-byte and 32767 boundaries and any protocol version, and every gather-toggle combination on a Valve game) against a server that answers the first attempt and, for retries <= 2 and finite timeouts, against a silent one; the simulated OS rejects zero timeouts as the kernel does; oracle: construction rejects exactly the zero-duration cells with an invalid-input error, no construction and no query panics; distinct = (cell, event-log hash)")
     }
 
     fn assumptions(&self) -> Vec<String> {
